@@ -136,6 +136,8 @@ def check(run: Run) -> None:
                 lhs_ok = True
             if side[0] == "app" and side[1][0] == "global" and "lambda_arg_list" in side[1][1]:
                 lhs_ok = _arg_list_fn_ok(run, ctx, m, side[1][1])
+    if ok_cond and rhs_ok and not lhs_ok and any(contains(side_, lambda q: q[0] == "app" and q[1][0] == "global" and (q[1][1].startswith("operator.") or q[1][1].startswith("functools.") or q[1][1].startswith("itertools."))) for side_ in cond[2]):
+        raise AnalysisError("the candidates' parameter names are gathered through operator / functools / itertools plumbing (map(attrgetter('arg'), ..)): whether that is the ordered list of all parameter names cannot be read from this shape")
     run.check(ok_cond and lhs_ok and rhs_ok, "C03.R2", g, good_def, "condition is [a.arg for a in l.args.args] == inspect.getfullargspec(callable).args", f"the candidate filter is {show(cond)[:160]}: not full equality between the candidate's ordered parameter names and the callable's own", "lambda_arg_list(lda) == inspect.getfullargspec(ast_source).args")
 
     # ---------------- R3
@@ -502,8 +504,38 @@ def _arg_list_fn_ok(run, ctx, m, qual) -> bool:
 PAIRS = {"(": ")", "[": "]", "{": "}"}
 
 
+def _check_brackets_by_interpretation(run: Run, tt) -> bool:
+    """decide C03.R4 by interpreting the loop of tokens_till on a finite set of token sequences (sa/tokstep.py); False when
+    the function uses something outside the interpreter's subset (the syntactic reading then applies)"""
+    import tokenize as _tk
+
+    from ..tokstep import Tok, Unsupported, bracket_scenarios, simulate
+
+    lits = {k: v for k, v in tt.module.assigns.items()}
+    stop = {_tk.OP: [",", ")"]}
+    results = []
+    try:
+        for name, toks, want, meaning in bracket_scenarios():
+            _y, got = simulate(tt.node, lits, toks, stop)
+            results.append((name, toks, want, got, meaning))
+        y, got = simulate(tt.node, lits, [Tok(_tk.COMMENT, "# c"), Tok(_tk.NAME, "x"), Tok(_tk.OP, ",")], stop)
+    except Unsupported as e:
+        run.notes["tokens_till_interpreter"] = f"not applicable: {e}"
+        return False
+    except RecursionError:
+        return False
+    run.notes["tokens_till_interpreter"] = f"{len(results)} token sequences interpreted"
+    for name, toks, want, got, meaning in results:
+        run.check(got == want, "C03.R4", tt, tt.node, f"token sequence '{name}': scan " + ("runs on" if want is None else f"stops at token {want}"), f"on the token sequence {' '.join(repr(t) for t in toks)} the scan " + ("runs to the end" if got is None else f"stops at token {got}") + " where it must " + ("run on" if want is None else f"stop at token {want}") + f": {meaning}", "count ( [ { and their partners, for operator tokens only; stop only at depth zero", key=f"bracket scan: {name}")
+    ok_y = [repr(t) for t in y] == ["NAME:'x'"] and got == 2
+    run.check(ok_y, "C03.R4", tt, tt.node, "comments are dropped, every other token is yielded", f"on # c / x / , the scan yields {[repr(t) for t in y]} and stops at {got}: comment tokens are not skipped (text in a comment becomes part of the recovered lambda source) or other tokens are lost", key="bracket scan: comments dropped")
+    return True
+
+
 def _check_brackets(run: Run, tt) -> None:
     """tokens_till: counters per bracket kind."""
+    if _check_brackets_by_interpretation(run, tt):
+        return
     inc = {}
     dec = {}
     steps = []
